@@ -298,3 +298,222 @@ Proof.
   - eapply disc_not_writes; eassumption.
   - lia.
 Qed.
+
+(* ---------- decommit, drop, init ---------- *)
+
+Lemma decommit_off s : a_off (s_a (decommit s)) = a_off (s_a s).
+Proof. unfold decommit. destruct (_ <? _); reflexivity. Qed.
+
+Lemma decommit_mem s : s_m (decommit s) = s_m s.
+Proof. unfold decommit. destruct (_ <? _); reflexivity. Qed.
+
+Lemma decommit_cap s : a_cap (s_a (decommit s)) = a_cap (s_a s).
+Proof. unfold decommit. destruct (_ <? _); reflexivity. Qed.
+
+Definition maybe_decommit (b : bool) (s : st) : st := if b then decommit s else s.
+
+Lemma maybe_decommit_facts b s :
+  arena_ok (s_a s) ->
+  arena_ok (s_a (maybe_decommit b s)) /\ a_off (s_a (maybe_decommit b s)) = a_off (s_a s) /\
+  s_m (maybe_decommit b s) = s_m s /\ a_base (s_a (maybe_decommit b s)) = a_base (s_a s) /\
+  a_cap (s_a (maybe_decommit b s)) = a_cap (s_a s).
+Proof.
+  intros Ha. destruct b; cbn [maybe_decommit]; [|auto 10].
+  destruct (decommit_arena_ok s Ha) as (H1 & H2 & H3).
+  exact (conj H1 (conj H2 (conj H3 (conj (decommit_base s) (decommit_cap s))))).
+Qed.
+
+Lemma drop_arena_eq dbg c mark :
+  drop_arena dbg c mark =
+  mkCst (maybe_decommit drop_decommits (c_s (do_reset dbg c mark))) (keep_below mark (c_live c)) (c_next c)
+        (trim_marks mark (c_marks c)).
+Proof. reflexivity. Qed.
+
+Lemma drop_arena_inv dbg c mark : Inv c -> 0 <= mark <= aoff c -> Inv (drop_arena dbg c mark).
+Proof.
+  intros HI Hm. pose proof (do_reset_inv dbg c mark HI Hm) as HI1.
+  pose proof HI1 as (Ha1 & _).
+  destruct (maybe_decommit_facts drop_decommits _ Ha1) as (Hok & Hoff & _ & Hbase & _).
+  unfold drop_arena. fold (maybe_decommit drop_decommits (c_s (do_reset dbg c mark))).
+  apply inv_set_arena; assumption.
+Qed.
+
+Lemma drop_arena_off dbg c mark : aoff (drop_arena dbg c mark) = mark.
+Proof.
+  rewrite drop_arena_eq. unfold aoff; cbn [c_s]. unfold maybe_decommit.
+  destruct drop_decommits; [rewrite decommit_off|]; reflexivity.
+Qed.
+
+Lemma drop_arena_mem dbg c mark x :
+  x < mark -> s_m (c_s (drop_arena dbg c mark)) x = s_m (c_s c) x.
+Proof.
+  intros Hx. rewrite drop_arena_eq; cbn [c_s]. unfold maybe_decommit.
+  assert (H : s_m (c_s (do_reset dbg c mark)) x = s_m (c_s c) x).
+  { unfold do_reset; cbn [c_s]. unfold reset; cbn [s_m]. destruct (dbg && _); [|reflexivity]. apply fill_outside. lia. }
+  destruct drop_decommits; [rewrite decommit_mem|]; exact H.
+Qed.
+
+Lemma drop_arena_base_cap dbg c mark :
+  a_base (s_a (c_s (drop_arena dbg c mark))) = a_base (s_a (c_s c)) /\
+  a_cap (s_a (c_s (drop_arena dbg c mark))) = a_cap (s_a (c_s c)).
+Proof.
+  rewrite drop_arena_eq; cbn [c_s]. unfold maybe_decommit.
+  destruct drop_decommits; [rewrite decommit_base, decommit_cap|]; split; reflexivity.
+Qed.
+
+Lemma drop_arena_bor_ok dbg c mark h' :
+  bor_ok c h' -> bo_mark h' <= mark -> bor_ok (drop_arena dbg c mark) h'.
+Proof.
+  intros ((Hm0 & Hm1) & Hn & Hs) Hle. unfold bor_ok. rewrite drop_arena_off.
+  rewrite drop_arena_eq; cbn [c_live c_next].
+  refine (conj _ (conj _ _)); [lia|assumption|]. apply Forall_filter. assumption.
+Qed.
+
+Lemma init_arena_eq dbg c :
+  init_arena dbg c = mkCst (maybe_decommit init_decommits (reset dbg (c_s c) 0)) [] 0 [].
+Proof. reflexivity. Qed.
+
+Lemma init_arena_inv dbg c : Inv c -> Inv (init_arena dbg c).
+Proof.
+  intros ((H0 & H1 & H2 & H3 & H4) & _). rewrite init_arena_eq.
+  assert (Ha : arena_ok (s_a (reset dbg (c_s c) 0))).
+  { rewrite reset_arena. unfold arena_ok; cbn [a_base a_off a_com a_cap]. repeat split; try lia; assumption. }
+  destruct (maybe_decommit_facts init_decommits _ Ha) as (Hok & _).
+  unfold Inv; cbn [c_s c_live c_next c_marks].
+  refine (conj Hok (conj _ (conj _ (conj _ (conj _ _))))); constructor.
+Qed.
+
+Lemma init_arena_facts dbg c :
+  Inv c ->
+  aoff (init_arena dbg c) = 0 /\ c_live (init_arena dbg c) = [] /\ c_next (init_arena dbg c) = 0 /\
+  c_marks (init_arena dbg c) = [] /\
+  a_base (s_a (c_s (init_arena dbg c))) = a_base (s_a (c_s c)) /\
+  a_cap (s_a (c_s (init_arena dbg c))) = a_cap (s_a (c_s c)).
+Proof.
+  intros ((H0 & H1 & H2 & H3 & H4) & _). rewrite init_arena_eq.
+  assert (Ha : arena_ok (s_a (reset dbg (c_s c) 0))).
+  { rewrite reset_arena. unfold arena_ok; cbn [a_base a_off a_com a_cap]. repeat split; try lia; assumption. }
+  destruct (maybe_decommit_facts init_decommits _ Ha) as (_ & Hoff & _ & Hbase & Hcap).
+  unfold aoff; cbn [c_s c_live c_next c_marks]. rewrite Hoff, Hbase, Hcap, reset_arena. auto 10.
+Qed.
+
+(* ---------- the step preserves the invariant ---------- *)
+
+Lemma sop_ok_cli a o : sop_ok (SCli a o) -> op_ok o.
+Proof. destruct o; cbn [sop_ok op_ok]; auto. Qed.
+
+Lemma disc_cli_not_borrow c h o : disc_cli c h o -> o <> OBorrow /\ o <> ORelease.
+Proof. destruct o; cbn [disc_cli]; intros H; try contradiction; split; discriminate. Qed.
+
+Lemma sstep_cli_eq dbg st a o h :
+  top_of a (ss_bors st) = Some h -> o <> OBorrow -> o <> ORelease ->
+  sstep dbg st (SCli a o) =
+  (upd a st (fst (cstep dbg (sel a st) o)), SRCli (snd (cstep dbg (sel a st) o))).
+Proof.
+  intros Ht H1 H2. unfold sstep. rewrite Ht.
+  destruct o; try contradiction; destruct (cstep dbg (sel a st) _); reflexivity.
+Qed.
+
+Lemma sstep_cli_none dbg st a o :
+  top_of a (ss_bors st) = None -> sstep dbg st (SCli a o) = (st, SRNone).
+Proof. intros Ht. unfold sstep. rewrite Ht. reflexivity. Qed.
+
+Lemma bors_transfer a st c' (l : list borrow) :
+  Forall (fun h => bor_ok (sel (bo_arena h) st) h) l ->
+  (forall h, In h l -> bo_arena h = a -> bor_ok c' h) ->
+  Forall (fun h => bor_ok (sel (bo_arena h) (upd a st c')) h) l.
+Proof.
+  intros H Hc. apply Forall_forall. intros h Hin. rewrite sel_cases.
+  destruct (Bool.eqb (bo_arena h) a) eqn:E.
+  - apply Hc; [assumption|]. apply Bool.eqb_prop. assumption.
+  - rewrite Forall_forall in H. apply H. assumption.
+Qed.
+
+Lemma SInv_upd a st c' :
+  SInv st -> Inv c' -> (forall h, In h (ss_bors st) -> bo_arena h = a -> bor_ok c' h) ->
+  SInv (upd a st c').
+Proof.
+  intros (H0 & H1 & Hb & Hs) Hc Hbo. unfold SInv. rewrite bors_upd.
+  refine (conj _ (conj _ (conj _ Hs))).
+  - destruct a; cbn [upd ss0]; assumption.
+  - destruct a; cbn [upd ss1]; assumption.
+  - apply bors_transfer; assumption.
+Qed.
+
+Lemma SInv_bors st l :
+  Inv (ss0 st) -> Inv (ss1 st) -> Forall (fun h => bor_ok (sel (bo_arena h) st) h) l -> bors_sorted l ->
+  SInv (mkSst (ss0 st) (ss1 st) l).
+Proof.
+  intros H0 H1 Hb Hs. unfold SInv; cbn [ss0 ss1 ss_bors].
+  refine (conj H0 (conj H1 (conj _ Hs))).
+  eapply Forall_impl; [|exact Hb]. intros h Hh. rewrite sel_rebuild. exact Hh.
+Qed.
+
+Lemma sstep_inv dbg st o : SInv st -> sop_ok o -> disc st o -> SInv (fst (sstep dbg st o)).
+Proof.
+  intros HS Hop Hd. pose proof HS as (H0 & H1 & Hb & Hs).
+  destruct o as [c| |a o|].
+  - (* SBorrow *)
+    cbn [sstep fst]. set (a := choose c).
+    pose proof (SInv_sel a st HS) as (Ha & Hl & _ & _ & Hid & _).
+    apply SInv_bors; try assumption.
+    + constructor; [|assumption]. cbn [bo_arena].
+      unfold bor_ok; cbn [bo_mark bo_next]. destruct Ha as (Ha0 & _). unfold aoff.
+      refine (conj _ (conj _ _)); [lia|lia|].
+      apply Forall_forall. intros x Hx. unfold side; cbn [bo_next bo_mark].
+      rewrite Forall_forall in Hid. specialize (Hid x Hx). rewrite Forall_forall in Hl. specialize (Hl x Hx).
+      destruct (c_next (sel a st) <=? b_id x) eqn:E; [apply Z.leb_le in E; lia|]. unfold blk_ok in Hl. lia.
+    + cbn [bors_sorted]. split; [|assumption]. apply Forall_forall. intros h' Hin Harena. cbn [bo_arena bo_mark bo_next] in *.
+      rewrite Forall_forall in Hb. specialize (Hb h' Hin). rewrite Harena in Hb.
+      destruct Hb as ((_ & Hm) & Hn & _). lia.
+  - (* SDrop *)
+    cbn [sstep]. destruct (ss_bors st) as [|b rest] eqn:Eb; cbn [fst]; [assumption|].
+    inversion Hb as [|? ? Hbb Hrest]; subst. cbn [bors_sorted] in Hs. destruct Hs as [Hdom Hsr].
+    set (a := bo_arena b) in *.
+    assert (HS' : SInv (upd a st (drop_arena dbg (sel a st) (bo_mark b)))).
+    { apply SInv_upd; [assumption| |].
+      - apply drop_arena_inv; [apply SInv_sel; assumption|]. destruct Hbb as (Hm & _). exact Hm.
+      - rewrite Eb. intros h [<-|Hin] Harena.
+        + apply drop_arena_bor_ok; [assumption|lia].
+        + rewrite Forall_forall in Hrest. pose proof (Hrest h Hin) as Hh. rewrite Harena in Hh.
+          apply drop_arena_bor_ok; [assumption|]. rewrite Forall_forall in Hdom. apply Hdom; assumption. }
+    destruct HS' as (G0 & G1 & Gb & _). rewrite bors_upd, Eb in Gb. inversion Gb; subst.
+    apply SInv_bors; assumption.
+  - (* SCli *)
+    cbn [disc] in Hd. destruct (top_of a (ss_bors st)) as [h|] eqn:Et.
+    + destruct (disc_cli_not_borrow _ _ _ Hd) as [Hn1 Hn2].
+      rewrite (sstep_cli_eq dbg st a o h Et Hn1 Hn2). cbn [fst].
+      destruct (top_of_In _ _ _ Et) as [Hhin Hha].
+      pose proof (sop_ok_cli _ _ Hop) as Hop'.
+      pose proof (SInv_sel a st HS) as HIa.
+      assert (Hbh : bor_ok (sel a st) h).
+      { rewrite Forall_forall in Hb. specialize (Hb h Hhin). rewrite Hha in Hb. exact Hb. }
+      apply SInv_upd; [assumption|apply cstep_inv; assumption|].
+      intros h' Hin' Ha'.
+      destruct (top_dominates a _ h Hs Et h' Hin' Ha') as [Hm Hn].
+      apply (cstep_bor_ok dbg (sel a st) h o h'); try assumption.
+      rewrite Forall_forall in Hb. specialize (Hb h' Hin'). rewrite Ha' in Hb. exact Hb.
+    + rewrite sstep_cli_none by assumption. assumption.
+  - (* SInit *)
+    cbn [disc] in Hd. cbn [sstep fst]. unfold reinit. rewrite Hd.
+    unfold SInv; cbn [ss0 ss1 ss_bors bors_sorted].
+    refine (conj _ (conj _ (conj _ I))); [apply init_arena_inv; assumption|apply init_arena_inv; assumption|constructor].
+Qed.
+
+Lemma sinit_inv b0 b1 cap : SInv (sinit b0 b1 cap).
+Proof.
+  unfold SInv, sinit; cbn [ss0 ss1 ss_bors bors_sorted].
+  refine (conj _ (conj _ (conj _ I))); [apply cinit_inv|apply cinit_inv|constructor].
+Qed.
+
+Lemma srun_inv dbg ops : forall st, SInv st -> run_disc dbg st ops -> SInv (srun dbg st ops).
+Proof.
+  induction ops as [|o ops IH]; intros st HS Hr; cbn [srun fold_left]; [assumption|].
+  cbn [run_disc] in Hr. destruct Hr as (Hop & Hd & Hr).
+  apply IH; [apply sstep_inv; assumption|assumption].
+Qed.
+
+(* scratch_inv_reachable *)
+Lemma scratch_inv_reachable dbg b0 b1 cap ops :
+  run_disc dbg (sinit b0 b1 cap) ops -> SInv (srun dbg (sinit b0 b1 cap) ops).
+Proof. intros. apply srun_inv; [apply sinit_inv|assumption]. Qed.
